@@ -88,6 +88,9 @@ class TextTable:
         self.__rows.append(self.__current_row)
 
     def new_cell(self, text: str = None, color: str = None, bg_color: str = None):
+        # A cell is one line of the table: line breaks inside a value are shown as blanks
+        if isinstance(text, str) and ('\n' in text or '\r' in text):
+            text = text.replace('\r\n', ' ').replace('\n', ' ').replace('\r', ' ')
         self.__current_row.add_cell(text, color, bg_color)
 
     def text_repr(self, border: bool = False, border_color: str = None):
